@@ -9,7 +9,8 @@ Inductive term :=
 | TLit (v : val)                      (* a literal operand *)
 | TVar (x : key)                      (* a variable with an explicit domain *)
 | TMap (m : mapping) (t : term)       (* attribute / index / zero-argument call *)
-| TFlat (id : key) (t : term).        (* flatten(t): one row per element, bound under [id] *)
+| TFlat (id : key) (t : term)         (* flatten(t): one row per element, bound under [id] *)
+| TConcat (id : key) (t : term).      (* concatenate(t): ONE row, the list of all elements of t over all its rows *)
 
 (* what the user writes *)
 Inductive scond :=
@@ -39,6 +40,7 @@ Fixpoint tvars (t : term) : list key :=
   | TVar x => [x]
   | TMap _ t' => tvars t'
   | TFlat _ t' => tvars t'
+  | TConcat _ t' => tvars t'
   end.
 
 (* keys a term can bind *)
@@ -48,6 +50,7 @@ Fixpoint tkeys (t : term) : list key :=
   | TVar x => [x]
   | TMap _ t' => tkeys t'
   | TFlat id t' => id :: tkeys t'
+  | TConcat id t' => id :: tkeys t'
   end.
 
 Fixpoint cvars (c : cond) : list key :=
